@@ -342,6 +342,61 @@ pub fn cases_for(prop: &str, tier: &str, seed: u64, shard: (usize, usize)) -> (V
                 }
             }
         }
+        "C20" => {
+            use crate::op_introspect::{mutate, render, Policy, J, MUTATIONS};
+            let mut n = 0usize;
+            let mut push = |cases: &mut Vec<Case>, fam: &str, si: usize, j: &J, pol: &str, pristine: bool, n: &mut usize| {
+                *n += 1;
+                if *n % shard.1 != shard.0 {
+                    return;
+                }
+                let mut text = String::new();
+                j.text(&mut text);
+                let mut sx = String::new();
+                j.sexp(&mut sx);
+                cases.push(Case { id: format!("j{}", *n), family: fam.to_string(), schema: si, op: "introspect".into(), doc: Some(text),
+                    extra: vec![format!("(policy {})", pol), format!("(pristine {})", if pristine { "t" } else { "f" }), sx], note: fam.to_string() });
+            };
+            let per = budget(tier, 40, 1500);
+            for (i, si) in pool.iter().enumerate() {
+                for (pol, pname) in [(Policy::Null, "null"), (Policy::Absent, "absent")] {
+                    let j = render(&si.doc, pol);
+                    push(&mut cases, "rendered", i, &j, pname, true, &mut n);
+                    for k in 0..per {
+                        let m = MUTATIONS[k % MUTATIONS.len()];
+                        if let Some(mj) = mutate(&j, m, &mut rng) {
+                            // mutations that keep the shape (extra / reordered members) stay pristine
+                            let keeps = m == "extra-member" || m == "reorder-members";
+                            push(&mut cases, &format!("mutated:{}", m), i, &mj, pname, keeps, &mut n);
+                        }
+                    }
+                }
+            }
+            // hand-made edge cases
+            let minimal = pool.iter().position(|s| s.name == "minimal").unwrap();
+            for text in ["{}", "[]", "null", "{\"__schema\":null}", "{\"__schema\":{}}", "{\"__schema\":{\"queryType\":{\"name\":\"Q\"},\"types\":[],\"directives\":[]}}",
+                         "{\"__schema\":{\"queryType\":{\"name\":\"Q\"},\"queryType\":{\"name\":\"R\"},\"types\":[],\"directives\":[]}}",
+                         "{\"__schema\":{\"queryType\":{\"name\":\"Q\",\"zz\":1,\"zz\":2},\"types\":[{\"kind\":\"SCALAR\",\"name\":\"S\"}],\"directives\":[{\"name\":\"d\",\"locations\":[\"QUERY\",\"VARIABLE_DEFINITION\"],\"args\":[]}]}}",
+                         "{\"__schema\":{\"queryType\":{\"name\":\"Q\"},\"types\":[{\"kind\":\"OBJECT\",\"name\":\"O\",\"fields\":[{\"name\":\"f\",\"args\":[],\"type\":{\"kind\":\"LIST\"}}],\"interfaces\":[]}],\"directives\":[]}}"] {
+                if let Ok(v) = serde_json::from_str::<serde_json::Value>(text) {
+                    // note: serde_json::Value drops duplicate members; cases with duplicates are built by the mutation operator instead
+                    if let Some(j) = J::from_value(&v) {
+                        push(&mut cases, "hand-made", minimal, &j, "null", false, &mut n);
+                    }
+                }
+            }
+            // the bundled real-world results
+            let files: &[&str] = if tier == "thorough" { &["product", "github", "shopify"] } else { &["product"] };
+            for f in files {
+                if let Ok(text) = std::fs::read_to_string(format!("/repo/src/introspection/test_files/{}_introspection.json", f)) {
+                    if let Ok(v) = serde_json::from_str::<serde_json::Value>(&text) {
+                        if let Some(j) = J::from_value(&v) {
+                            push(&mut cases, "bundled-real-world", minimal, &j, "null", false, &mut n);
+                        }
+                    }
+                }
+            }
+        }
         "C18" => {
             // exhaustive per schema; one case per pool schema (knows_nothing included), shard 0 only
             let depth = if tier == "thorough" { 3 } else { 2 };
@@ -406,6 +461,7 @@ pub fn run_impl(c: &Case, si: &SchemaInfo, doc: Option<&q::Document>) -> Vec<Str
         "trace" => crate::op_trace::run_trace(&si.doc, doc.unwrap()),
         "strace" => crate::op_trace::run_strace(&si.doc),
         "collect" => crate::op_misc::run_collect(&si.doc, doc.unwrap()),
+        "introspect" => crate::op_introspect::run_introspect_text(c.doc.as_ref().unwrap(), if c.doc.as_ref().unwrap().len() > 20000 { 40 } else { 100000 }),
         "transform" => {
             let p: Vec<u64> = c.extra[0].trim_start_matches("(probe ").trim_end_matches(')').split_whitespace().map(|x| x.parse().unwrap()).collect();
             crate::op_transform::run_transform(doc.unwrap(), p[0], p[1], p[2])
